@@ -127,6 +127,9 @@ def run(chk: Check) -> None:
     # "the same holds when the process was checkpointed and restored": the pending call's arguments are copied into the checkpoint (shared with C07)
     from .c07 import members_deepcopied
     members_deepcopied(chk)
+    # "after resume(v), f(v) runs (f() if resumed without a value)": the process-level resume passes on exactly the arguments it got (shared with C06)
+    from .c06 import resume_forwards_its_arguments
+    resume_forwards_its_arguments(chk, 'FWD-state-payload')
     running = prog.cls('process_states.Running')
     ac = prog.func('process_states.Running._action_command')
     subject = ac.params[1] if len(ac.params) > 1 else 'command'
